@@ -10,7 +10,8 @@
 //                public EventDef / ClassDef constructors, `init` (first EventSystem::Get() of the
 //                process, later EventSystem::InitEvents() rebuilds), table rows, name look-ups and
 //                real invocations on an instance (Listener::ProcessScriptEvent / ProcessEventReturn
-//                / ProcessEvent) whose handlers record which declaration ran.
+//                / ProcessEvent) whose handlers record which declaration ran, and the script
+//                command `commanddelay` (Listener::CommandDelay + the event queue).
 //
 // Ids: event objects and classes are numbered in construction order (built-ins first).
 // A handler is identified by `<declaring class id>.<index in that class's Responses[]>`.
